@@ -1,5 +1,5 @@
 //! C15 — locked private keys: lossless, tamper-evident, documented format (E-GRID vs REF).
-use crate::keyring::{EncodedSk, Keyring};
+use crate::kra;
 use crate::refspec as r;
 use crate::report::{Report, Tier};
 use crate::util::*;
@@ -7,18 +7,18 @@ use rayon::prelude::*;
 use serde_json::{json, Value};
 
 fn rust_lock(sk: &[u8; 32], pw: &[u8], salt: &[u8; 32]) -> Result<String, String> {
-    guarded(|| Keyring::lock_private_key(&privkey(sk), pw, *salt).as_str().to_string())
+    guarded(|| kra::lock(sk, pw, salt))
 }
 
 /// Ok(Some(key)) unlocked, Ok(None) rejected (at string or blob level), Err(panic)
 fn rust_unlock(s: &str, pw: &[u8]) -> Result<Option<Vec<u8>>, String> {
-    guarded(|| match EncodedSk::try_from(s) {
-        Ok(e) => Keyring::unlock_private_key(&e, pw).ok().map(|k| k.as_bytes().to_vec()),
-        Err(_) => None,
-    })
+    guarded(|| kra::unlock(s, pw))
 }
 
 fn lock_case(rep: &Report, sk: &[u8; 32], pwn: &str, pw: &[u8], salt: &[u8; 32]) {
+    if !kra::AVAILABLE {
+        return; // in-process seam unavailable: the CLI-level parts below decide
+    }
     rep.eval(1);
     let case = json!({"kind":"lock","sk":hx(sk),"pw":hx(pw),"salt":hx(salt)});
     let want = r::b64(&r::lock_key(sk, pw, salt));
@@ -42,6 +42,9 @@ fn lock_case(rep: &Report, sk: &[u8; 32], pwn: &str, pw: &[u8], salt: &[u8; 32])
 }
 
 fn other_pw_case(rep: &Report, sk: &[u8; 32], wn: &str, w: &[u8], w2n: &str, w2: &[u8], locked: &str) {
+    if !kra::AVAILABLE {
+        return; // in-process seam unavailable: the CLI-level parts below decide
+    }
     rep.eval(1);
     let case = json!({"kind":"other-pw","sk":hx(sk),"wn":wn,"w":hx(w),"w2n":w2n,"w2":hx(w2),"locked":locked});
     match rust_unlock(locked, w2) {
@@ -59,6 +62,9 @@ fn other_pw_case(rep: &Report, sk: &[u8; 32], wn: &str, w: &[u8], w2n: &str, w2:
 }
 
 fn flip_case(rep: &Report, sk: &[u8; 32], pw: &[u8], blob: &[u8], bit: usize) {
+    if !kra::AVAILABLE {
+        return; // in-process seam unavailable: the CLI-level parts below decide
+    }
     rep.eval(1);
     let mut b = blob.to_vec();
     b[bit / 8] ^= 1 << (bit % 8);
@@ -75,6 +81,9 @@ fn flip_case(rep: &Report, sk: &[u8; 32], pw: &[u8], blob: &[u8], bit: usize) {
 }
 
 fn string_case(rep: &Report, s: &str, pw: &[u8], orig: &str, sk: &[u8; 32]) {
+    if !kra::AVAILABLE {
+        return; // in-process seam unavailable: the CLI-level parts below decide
+    }
     rep.eval(1);
     let case = json!({"kind":"string","s":s,"pw":hx(pw),"orig":orig,"sk":hx(sk)});
     // model: accept iff strict base64 of 84 bytes that REF unlocks
@@ -101,6 +110,7 @@ fn string_case(rep: &Report, s: &str, pw: &[u8], orig: &str, sk: &[u8; 32]) {
 
 pub fn run(rep: &'static Report) {
     let seed = rep.seed;
+    kra::note(rep);
     rep.set_rule("E-GRID vs REF: keys x passwords x salts (lock bytes == documented format, lock/unlock round trip in both directions between Rust and REF), all ordered password pairs, every single-bit change of the 84-byte blob, every string length 0..130 and every single-character substitution from a class alphabet. distinct non-trivial = distinct (key, password, salt) / (password pair) / (bit) / (string) points");
     rep.assume("key/salt values from seed-derived alphabets plus all-zero and all-one keys; one scrypt(32768,8,1) per point bounds the grid");
     let ids = idents(seed);
@@ -112,6 +122,7 @@ pub fn run(rep: &'static Report) {
         s[0] = 0;
         s
     }];
+    rep.mute(!kra::AVAILABLE); // in-process grid: counts nothing when the seam is unavailable
     let mut jobs = vec![];
     for (ki, _) in keys.iter().enumerate() {
         for (wi, _) in w.iter().enumerate() {
@@ -200,6 +211,37 @@ pub fn run(rep: &'static Report) {
     });
     rep.extra("key_strings", json!(strs.len()));
     rep.sample(json!({"kind":"string","s":"<valid 112-char string with char 57 replaced by '='>","expect":"rejected, no panic"}));
+    rep.mute(false);
+    // CLI level: every single-bit change of a locked key is refused by `kestrel key extract-pub`; the pristine string yields the public key
+    {
+        use crate::proc::{self, Cmd, Scratch};
+        let pw = "flip pw";
+        let blob = r::lock_key(&keys[0], pw.as_bytes(), &salts[0]);
+        let want_pk = r::encode_pk(&r::x25519_base(&keys[0]));
+        let bits: Vec<Option<usize>> = std::iter::once(None).chain((0..84 * 8usize).map(Some)).collect();
+        bits.par_iter().for_each(|bit| {
+            rep.eval(1);
+            let mut b = blob.clone();
+            if let Some(bit) = bit {
+                b[bit / 8] ^= 1 << (bit % 8);
+            }
+            let s = r::b64(&b);
+            let sc = Scratch::new();
+            let out = proc::run(&Cmd::new(&["key", "extract-pub", &s, "--env-pass"]).env("KESTREL_PASSWORD", pw), &sc.0);
+            rep.nontrivial(format!("cli-flip-{:?}", bit).as_bytes());
+            let case = json!({"kind":"cli-flip","locked":s,"pw":pw,"bit":bit});
+            if let Err(e) = out.well_behaved() {
+                rep.violation("cli/flip-ill-behaved", case, e);
+            } else if bit.is_none() {
+                if !out.ok() || !String::from_utf8_lossy(&out.stdout).contains(&want_pk) {
+                    rep.violation("cli/extract-pub-of-pristine-key", case, format!("kestrel key extract-pub on a REF-locked key does not print its public key: {}", out.summary()));
+                }
+            } else if out.ok() {
+                rep.violation("cli/flipped-locked-key-accepted", case, format!("kestrel key extract-pub accepts a locked key with bit {} changed: {}", bit.unwrap(), out.summary()));
+            }
+        });
+        rep.extra("cli_blob_bit_flips", json!(672));
+    }
     // CLI level: a key locked (REF) under w must be opened by `kestrel key extract-pub --env-pass` under w' iff w' == w
     {
         use crate::proc::{self, Cmd, Scratch};
@@ -279,6 +321,14 @@ pub fn replay(rep: &'static Report, case: &Value) {
         "other-pw" => other_pw_case(rep, &a32("sk"), case["wn"].as_str().unwrap(), &g("w"), case["w2n"].as_str().unwrap(), &g("w2"), case["locked"].as_str().unwrap()),
         "flip" => flip_case(rep, &a32("sk"), &g("pw"), &g("blob"), case["bit"].as_u64().unwrap() as usize),
         "string" => string_case(rep, case["s"].as_str().unwrap(), &g("pw"), case["orig"].as_str().unwrap(), &a32("sk")),
+        "cli-flip" => {
+            let sc = crate::proc::Scratch::new();
+            let out = crate::proc::run(&crate::proc::Cmd::new(&["key", "extract-pub", case["locked"].as_str().unwrap(), "--env-pass"]).env("KESTREL_PASSWORD", case["pw"].as_str().unwrap()), &sc.0);
+            println!("  observed: {}", out.summary());
+            if out.ok() != case["bit"].is_null() {
+                rep.violation("cli/replay", case.clone(), out.summary());
+            }
+        }
         "cli-change" => {
             println!("  re-running C15");
             run(rep);
